@@ -1127,10 +1127,14 @@ def listing_rule(ctx, F, rid):
     ctx.check(bool(re.search(r'find \. ', text)) and '-type f' in text, rid, 'listing:start-point', 'find . -type f (paths printed as ./rel)',
               'the listing does not start at `.` / is not restricted to regular files', where)
     # reader
-    b = F.body('meta::parse_remote_meta_output')
-    if b is None:
+    top = F.body('meta::parse_remote_meta_output')
+    if top is None:
         ctx.missing(rid, 'meta::parse_remote_meta_output')
+    b = record_parser_body(F)
+    if b is None:
+        ctx.missing(rid, 'the body that parses one listing record (parse::<u64> of the size field) under meta::parse_remote_meta_output')
     fl = flow_of(b)
+    tfl = flow_of(top)
     # record separator 0 in the split closure
     rec0 = False
     for cb in F.nested('meta::parse_remote_meta_output'):
@@ -1143,21 +1147,34 @@ def listing_rule(ctx, F, rid):
                         rec0 = True
     splitn = [(sb, st) for sb, st in fl.calls(lambda c: c.endswith('::splitn'))]
     sp_ok = False
+    sp_bad = None
     for sb, st in splitn:
         n = fl.origins(st['args'][1])
         sep = fl.origins(st['args'][2])
-        if any(o.kind == 'const' and o.key == 3 for o in n) and any(o.kind == 'const' and o.key == ord('\t') for o in sep):
-            sp_ok = True
-    ctx.check(rec0, rid, 'listing:reader-record-sep', 'records split on NUL', 'the parser does not split records on NUL', loc(b, b.lo))
-    ctx.check(sp_ok, rid, 'listing:reader-field-sep', 'splitn(3, TAB): tabs inside names survive', 'the parser does not split exactly 3 TAB-separated fields (names containing tabs would break)', loc(b, b.lo))
+        if any(o.kind == 'const' and o.key == ord('\t') for o in sep):
+            if any(o.kind == 'const' and o.key == 3 for o in n):
+                sp_ok = True
+            elif n and all(o.kind == 'const' for o in n):
+                sp_bad = 'splitn(%s, TAB)' % sorted(o.key for o in n)
+    for sb, st in fl.calls(lambda c: c.split('::')[-1] in ('split', 'rsplit', 'split_terminator', 'rsplitn', 'split_inclusive') and 'str' in c):
+        if len(st['args']) >= 2 and any(o.kind == 'const' and o.key == ord('\t') for o in fl.origins(st['args'][-1])):
+            sp_bad = '%s(TAB): every TAB cuts, also those inside a name' % st['func']['fn'].split('::')[-1]
+    ctx.check(rec0, rid, 'listing:reader-record-sep', 'records split on NUL', 'the parser does not split records on NUL', loc(top, top.lo))
+    if sp_ok and not sp_bad:
+        ctx.ok(rid, 'listing:reader-field-sep', 'splitn(3, TAB): tabs inside names survive', loc(b, b.lo))
+    elif sp_bad or b is top:
+        ctx.bad(rid, 'listing:reader-field-sep', 'the parser does not split exactly 3 TAB-separated fields (names containing tabs would break)%s' % (': ' + sp_bad if sp_bad else ''), loc(b, b.lo))
+    else:
+        ctx.undecided(rid, '%s cuts a listing record into fields in a form that is not read (no splitn / split on TAB)' % b.path)
     # field order: first next() -> parse::<u64> (size), second -> mtime (split '.'), third -> path (strip_prefix "./")
     nx = sorted([nb for nb, nt in fl.calls_to('std::iter::Iterator::next')])
     parses = fl.calls(lambda c: c.endswith('::parse'))
     order_ok = False
+    ranks_read = False
     size_p = [pb for pb, pt in parses if 'u64' in (pt['func'].get('fn_args') or '')]
     mt_p = [pb for pb, pt in parses if 'i64' in (pt['func'].get('fn_args') or '')]
     mt_nested = False
-    for nbody in F.nested('meta::parse_remote_meta_output'):
+    for nbody in F.nested(b.path.split('::{')[0]):
         if nbody.kind == 'closure':
             for pb2, pt2 in flow_of(nbody).calls(lambda c: c.endswith('::parse')):
                 if 'i64' in (pt2['func'].get('fn_args') or ''):
@@ -1169,6 +1186,36 @@ def listing_rule(ctx, F, rid):
         # the same cut written with split_once('.'): the text before the dot is the first half of its payload
         dot = [(sb, st) for sb, st in fl.calls(lambda c: c.endswith('::split_once')) if any(o.kind == 'const' and o.key == ord('.') for o in fl.origins(st['args'][1]))]
         dot_once = bool(dot)
+
+    def slice_rank(op, depth=0):
+        """the same rank read from a slice pattern `[size, mtime, path]` over the collected splitn pieces: the constant index of
+        the element the operand was copied from (None: not of that form)"""
+        if depth > 6 or op.get('k') not in ('copy', 'move'):
+            return None
+        pl = op['p']
+        for pr in pl['proj']:
+            if isinstance(pr, dict) and 'cidx' in pr:
+                if pr.get('from_end') or pr.get('min') != 3:
+                    return None
+                base = {'k': 'copy', 'p': {'l': pl['l'], 'proj': []}}
+                sn = {sb for sb, _ in splitn}
+                via = [o for o in fl.origins(base) if o.kind == 'call']
+                fed = False
+                for o in via:
+                    if o.bb in sn:
+                        fed = True
+                    elif o.bb is not None and str(o.key).endswith('::collect'):
+                        fed = fed or any(x.kind == 'call' and x.bb in sn for x in call_arg_origins(fl, o.bb, 0))
+                return pr['cidx'] if fed else None
+        defs = [st for blk in b.blocks for st in blk['stmts'] if st['dst']['l'] == pl['l'] and not st['dst']['proj']]
+        if len(defs) != 1:
+            return None
+        rv = defs[0]['rv']
+        if rv['k'] == 'ref':
+            return slice_rank({'k': 'copy', 'p': rv['p']}, depth + 1)
+        if rv['k'] == 'use' and rv['ops']:
+            return slice_rank(rv['ops'][0], depth + 1)
+        return None
 
     def next_rank(op):
         """index (0,1,2) of the splitn next() the operand derives from"""
@@ -1182,9 +1229,16 @@ def listing_rule(ctx, F, rid):
                     ranks.add(firsts.index(o.bb) if o.bb in firsts else -1)
         return ranks
     if size_p and (mt_p or mt_nested) and strip and dot:
-        r_size = next_rank(b.blocks[size_p[0]]['term']['args'][0])
-        r_dot = next_rank(dot[0][1]['args'][0])
-        r_path = next_rank(strip[0][1]['args'][0])
+        def rank_of(op):
+            r = next_rank(op)
+            if not r:
+                sr = slice_rank(op)
+                r = {sr} if sr is not None else set()
+            return r
+        r_size = rank_of(b.blocks[size_p[0]]['term']['args'][0])
+        r_dot = rank_of(dot[0][1]['args'][0])
+        r_path = rank_of(strip[0][1]['args'][0])
+        ranks_read = bool(r_size) and bool(r_dot) and bool(r_path)
         order_ok = r_size == {0} and r_dot == {1} and r_path == {2}
         # mtime parse input = first piece of split('.')
         # the parsed mtime text is the first piece of split('.')
@@ -1206,7 +1260,40 @@ def listing_rule(ctx, F, rid):
                 if any(o.kind == 'call' and o.bb == dot[0][0] for o in io) and (d0 or clo) and not d1:
                     first_piece = True
         order_ok = order_ok and first_piece
-    ctx.check(order_ok, rid, 'listing:reader-field-order', 'size (u64) | integer part of mtime (i64) | path with ./ stripped',
-              'the parser does not read size, whole-second mtime and path in the order the listing writes them', loc(b, b.lo))
-    ins = fl.calls(lambda c: c.endswith('::insert'))
+    if not order_ok and b is not top and size_p and (mt_p or mt_nested) and strip and dot and not ranks_read:
+        ctx.undecided(rid, '%s hands the three fields of a record on in a form that is not read (neither successive next() of the splitn nor a slice pattern over its pieces)' % b.path)
+    else:
+        ctx.check(order_ok, rid, 'listing:reader-field-order', 'size (u64) | integer part of mtime (i64) | path with ./ stripped',
+                  'the parser does not read size, whole-second mtime and path in the order the listing writes them', loc(b, b.lo))
+    ins = fl.calls(lambda c: c.endswith('::insert')) or tfl.calls(lambda c: c.endswith('::insert'))
+    if not ins and b is not top:
+        # a record parser handed to filter_map / map, the pairs collected into the map
+        fed = [(cb_, ct_) for cb_, ct_ in tfl.calls(lambda c: c.split('::')[-1] in ('filter_map', 'map', 'flat_map'))
+               if any(a.get('k') == 'const' and a.get('fn') == b.path for a in ct_['args'])]
+        coll = [(cb_, ct_) for cb_, ct_ in tfl.calls(lambda c: c.endswith('::collect')) if re.search(r'BTreeMap<std::path::PathBuf, (plan::)?FileMeta|MetaMap', ct_['func'].get('fn_args') or '')]
+        ins = fed and coll
     ctx.check(bool(ins), rid, 'listing:reader-insert', 'entries inserted into the MetaMap', 'parsed entries are not inserted', loc(b, b.lo))
+
+
+def record_parser_body(F):
+    """the body that turns ONE listing record into (size, mtime, path): parse_remote_meta_output itself, or the crate function it
+    calls / hands to an iterator adaptor for each record - the one with the parse::<u64> of the size field"""
+    top = F.body('meta::parse_remote_meta_output')
+    if top is None:
+        return None
+    has_size = lambda x: bool(flow_of(x).calls(lambda c: c.endswith('::parse') ))and any('u64' in (t_['func'].get('fn_args') or '') for _, t_ in flow_of(x).calls(lambda c: c.endswith('::parse')))
+    if has_size(top):
+        return top
+    cands = []
+    for xb in [top] + [n for n in F.nested('meta::parse_remote_meta_output') if n.kind == 'closure']:
+        for bi, blk in enumerate(xb.blocks):
+            t = blk['term']
+            if t['k'] != 'call':
+                continue
+            names = [t['func'].get('fn')] + [a.get('fn') for a in t['args'] if a.get('k') == 'const' and a.get('fn')]
+            for n in names:
+                nb = F.body(n) if n else None
+                if nb is not None and nb is not top and nb not in cands:
+                    cands.append(nb)
+    hits = [c for c in cands if has_size(c)]
+    return hits[0] if len(hits) == 1 else None
